@@ -289,7 +289,7 @@ async def execute(gen, ops, w: SockWorld, run: Run, counters=None):
                 tr.peer_reset({"timeout": TimeoutError(110, "Connection timed out (link)"),
                                "oserror": OSError(113, "No route to host (link)")}.get(kind))
             elif o == "stall":
-                tr.stall()
+                tr.stall(graceful=len(op) > 1 and op[1] == "graceful")
             elif o == "unstall":
                 tr.unstall()
             elif o in ("garbage", "data"):
